@@ -4,7 +4,7 @@ import NitroVerif.Model.SkipConc
   Engine `skipconc` (PROTOCOL.md, "engine skipconc"): logical threads steered through the yield points of
   package skiplist on one shared list.
 
-    threads <n>                     (once per case, 1 ≤ n ≤ 64)             -> ok
+    threads <n> [mem=go|mem=mm]     (once per case, 1 ≤ n ≤ 64)             -> ok
     start <t> ins <k> lvl=<L>                                             -> at <POINT> | ret <true|false>
     start <t> del <k> | look <k>                                          -> at <POINT> | ret <true|false>
     start <t> it_first <i>          (iterator names <i> are arbitrary tokens) -> ret <key|end>
@@ -79,6 +79,14 @@ def skipConcStep (s : SkipConcSt) (toks : List String) : SkipConcSt × String :=
     match n.toNat? with
     | some n =>
       if s.made || n < 1 || n > 64 then (s, "bad-op")
+      else ({ sys := { threads := List.replicate n {} }, made := true }, "ok")
+    | none => (s, "bad-op")
+  | ["threads", n, m] =>
+    -- memory mode of the real list (Go-managed: no access barrier, iterators carry no session); the list
+    -- operations, and therefore the model, are the same
+    match n.toNat? with
+    | some n =>
+      if s.made || n < 1 || n > 64 || !(m == "mem=go" || m == "mem=mm") then (s, "bad-op")
       else ({ sys := { threads := List.replicate n {} }, made := true }, "ok")
     | none => (s, "bad-op")
   | "start" :: t :: rest =>
